@@ -517,3 +517,6 @@ mod if_alloc {
 
 #[cfg(feature = "alloc")]
 pub use self::if_alloc::*;
+
+#[cfg(futures_intrusive_verif)]
+include!(concat!(env!("FI_VERIF_INC"), "/channel_future.rs"));
